@@ -107,6 +107,9 @@ type Journal struct {
 	Header   interface{}   `json:"header"`
 	Actions  []interface{} `json:"actions"`
 	Failure  string        `json:"failure,omitempty"`
+	// RapidSeed / Checks: the PRNG value and case count of the run that found the case (regeneration)
+	RapidSeed string `json:"rapid_seed,omitempty"`
+	Checks    string `json:"checks,omitempty"`
 }
 
 func (j *Journal) add(a interface{}) { j.Actions = append(j.Actions, a) }
@@ -128,6 +131,7 @@ var lastFailure struct {
 
 func saveFailure(j *Journal, msg string) string {
 	j.Failure = msg
+	j.RapidSeed, j.Checks = os.Getenv("VERIF_SEED_EFFECTIVE"), os.Getenv("VERIF_CASES")
 	b, err := json.MarshalIndent(j, "", " ")
 	if err != nil {
 		b = []byte(fmt.Sprintf(`{"property":%q,"test":%q,"failure":%q,"marshal_error":%q}`, j.Property, j.Test, msg, err.Error()))
